@@ -340,6 +340,11 @@ def gen_c14_extra(ctx, thorough):
             steps.append({"op": "burst", "steps": frames[k:k + 30]})
         steps.append(data(1, 1, es=True))
         out.append({'tag': 'download', 'cfg': {}, 'steps': steps})
+    # empty DATA frames (legal anywhere in a body) must not be answered with an increment of 0; padded empty ones are credited
+    for pad in (-1, 0, 30):
+        steps = [call(1), call(2), resp(1), data(1, 0, es=False, pad=pad), data(1, 10, es=False), data(1, 0, es=False, pad=pad), resp(2), data(2, 0, es=False, pad=pad),
+                 data(1, 0, es=True), data(2, 5, es=True)]
+        out.append({'tag': 'empty-data', 'cfg': {}, 'steps': steps})
     # data for cancelled requests still has to be credited to the connection window
     steps = []
     for i in range(1, 9):
